@@ -214,6 +214,36 @@ def api_calls(version, vlevel):
       ("header-add", lambda g, s: (g.header.add("xx", s), str(g))),
       ("header-set", lambda g, s: (g.header.set(s, 1), str(g))),
   ]
+  # less-used queries and options that take an identifier or a name
+  menu += [
+      ("is_cut_segment", lambda g, s: g.is_cut_segment(s)),
+      ("is_cut_segment-all", lambda g, s: [g.is_cut_segment(x)
+                                           for x in g.segment_names]),
+      ("segment_connected_component", lambda g, s:
+       g.segment_connected_component(s)),
+      ("linear_path", lambda g, s: g.linear_path(s)),
+      ("multiply-copy_names", lambda g, s: (g.multiply(seg, 2, copy_names=[s]),
+                                            str(g))),
+      ("multiply-name", lambda g, s: (g.multiply(s, 2), str(g))),
+      ("merge-merged_name", lambda g, s: (g.merge_linear_paths(merged_name=s),
+                                          str(g))),
+      ("unused_name-after-add", lambda g, s: (swallow(lambda: g.add_line(
+          "S\t" + s + "\t*" if version == "gfa1" else "S\t" + s + "\t1\t*")),
+          g.unused_name(), g.names)),
+      # assigning None removes a tag -- and a positional field?
+      ("set-None", lambda g, s: (lambda o: (swallow(lambda: o.set(s, None)),
+                                            str(g), g.names,
+                                            swallow(g.validate)))(g.segment(seg))),
+      ("set-None-other", lambda g, s: (lambda o: (
+          swallow(lambda: o.set(s, None)), str(g), g.names,
+          swallow(g.validate)))(g.line("p1" if version == "gfa1" else "e1"))),
+  ]
+  if version == "gfa2":
+    menu += [
+        ("set-None-fragment", lambda g, s: (lambda o: (
+            swallow(lambda: o.set(s, None)), str(g), g.external_names,
+            swallow(lambda: g.rm(o)), str(g)))(g.fragments[0])),
+    ]
   # a refused call, caught by the caller, then ordinary calls on the same
   # objects: nothing but gfapy.Error may come out of those either
   def swallow(fn):
@@ -304,7 +334,12 @@ TYPED_ALPHA = ["f", "c", ",", ".", "-", "1", "e", "{", "[", "A", "+"]
 RESERVED_NAMES = ["_data", "_datatype", "_gfa", "_refs", "_vlevel", "get",
                   "set", "name", "vlevel", "version", "virtual", "gfa",
                   "record_type", "tagnames", "validate", "__class__",
-                  "__dict__", "try_get_xx", "x" * 1000]
+                  "__dict__", "try_get_xx", "x" * 1000,
+                  # positional field names and aliases of the record types
+                  "sequence", "sid", "slen", "length", "LN", "external",
+                  "path_name", "segment_names", "overlaps", "eid", "sid1",
+                  "sid2", "beg1", "end1", "alignment", "from_segment",
+                  "to_segment", "overlap", "ID", "RC", "xx"]
 
 
 def work_api(item):
@@ -320,7 +355,8 @@ def work_api(item):
   strings = list(enumstr.all_strings(alpha, 2 if ";" in name else 3))
   if name in ("get", "try_get", "delete", "get_datatype", "field_to_s",
               "validate_field", "set-name", "set_datatype-name",
-              "header-set"):
+              "header-set", "set-None", "set-None-other",
+              "set-None-fragment"):
     strings += RESERVED_NAMES
   for s in strings:
     n += 1
